@@ -55,6 +55,8 @@ ASSUMPTIONS = [
     "message of a captured exception: only required to contain 'ValueError: boom:<key>:<step>' (model) and to be identical to the message of the solo call",
     "real-executor cases: sleeps only skew completion order, no timing or order is asserted; MPI is out of scope",
     "the second apply_to is only required not to re-run records that are completed in the store and to leave membership and content unchanged",
+    "inputs exposing their own `source` attribute are handed through as_completed un-proxied: a bare wrong-type result of such an input cannot name its source and is only counted; a live NotCompleted (solo call, as_completed) is only required to name the source when the failing value carried one, the record in the store always is",
+    "identifiers differing only in case (a / A) are used: a case-sensitive file system is assumed for the scratch directory",
 ]
 
 SCRATCH = os.path.join(os.path.dirname(os.path.dirname(os.path.abspath(__file__))), ".scratch")
